@@ -35,6 +35,12 @@ def check_run(ctx, rec, ref):
             if r["reaction"] != r["input_reaction"] or not r["issue"]:
                 ctx.fail("declined-row-altered-under-fault", case, {"row": pos, "row_value": r})
         if pos not in hit and r != ref["rows"][pos]:
+            # the searches work under wall-clock budgets: under machine load a run can differ from another run of the same batch without
+            # any fault.  A leak counts only if it reproduces: the fault-free batch and the plan are run once more.
+            again = mcs.run_many([(rec["inputs"], None, 0), (rec["inputs"], plan, 0)])
+            if again[0]["rows"] != ref["rows"] or len(again[1]["rows"]) != len(rec["rows"]) or again[1]["rows"][pos] == again[0]["rows"][pos]:
+                ctx.timing_unstable += 1
+                continue
             ctx.fail("fault-leaks-into-other-reaction", case, {"row": pos, "with_fault": r, "fault_free": ref["rows"][pos]})
     if rec["late_changes"]:
         ctx.fail("record-changed-after-return", case, {"late": rec["late_changes"]})
